@@ -19,7 +19,19 @@ from .ring import P, Poly, ZERO, ONE, Undecided
 from .npmodel import ExtModule
 from .interp import TypeMarker
 
-WORLD = {"Cref": None, "reg_log": [], "reg_bound": Fraction(1, 10000)}
+WORLD = {"Cref": None, "reg_log": [], "reg_bound": Fraction(1, 10000), "contract_log": []}
+
+
+def _note_symmetry(M, routine):
+    """eigvalsh / eigh (both backends) and tensortrax' eigh-based expm are specified for symmetric arguments only: numpy / tensortrax read
+    one triangle, jax symmetrises its input, so for any other argument the result is not the eigen-decomposition (resp. the matrix
+    exponential) of that argument and the two backends differ.  The call is logged; the properties that depend on it report it."""
+    M = npmodel.to_obj(np.asarray(M))
+    n = M.shape[0]
+    bad = [(i, j) for i in range(n) for j in range(i) if not ring.is_zero(P(M[i, j]) - P(M[j, i]))]
+    if bad:
+        WORLD["contract_log"].append((routine, bad))
+    return not bad
 
 
 def _is_diag(M):
@@ -50,11 +62,12 @@ def _strip_regularisation(M):
     return M
 
 
-def eigvalsh(M):
+def eigvalsh(M, _routine="eigvalsh"):
     M = npmodel.to_obj(np.asarray(M))
     if M.ndim != 2:
         raise Undecided("eigvalsh on a batch in model evaluation")
     M = _strip_regularisation(M)
+    _note_symmetry(M, _routine)
     n = M.shape[0]
     if _is_diag(M):
         out = np.empty(n, dtype=object)
@@ -71,7 +84,7 @@ def eigvalsh(M):
 def eigh(M):
     M = npmodel.to_obj(np.asarray(M))
     n = M.shape[0]
-    w = eigvalsh(M)
+    w = eigvalsh(M, _routine="eigh")
     args = [M[i, j] for i in range(n) for j in range(i, n)]
     # tensortrax returns eigenvalues and the eigen-bases M_a = N_a (x) N_a stacked on the first axis
     Mb = np.empty((n, n, n), dtype=object)
@@ -81,6 +94,12 @@ def eigh(M):
                 p, q = min(i, j), max(i, j)
                 Mb[a, i, j] = ring.ofun("Eigbase%d_%d%d" % (a, p, q), args)
     return w, Mb
+
+
+def expm_symmetric(M):
+    """tensortrax.math.linalg.expm: 'matrix exponential of a symmetric array' (eigh based)"""
+    _note_symmetry(M, "tensortrax.math.linalg.expm")
+    return expm(M)
 
 
 def expm(M):
@@ -232,7 +251,7 @@ def _abs(x):
 
 def math_namespace(it):
     npns = it.externals["numpy"].ns
-    linalg = ExtModule("tensortrax.math.linalg", dict(det=det, inv=npmodel.linalg_inv, eigvalsh=eigvalsh, eigh=eigh, expm=expm))
+    linalg = ExtModule("tensortrax.math.linalg", dict(det=det, inv=npmodel.linalg_inv, eigvalsh=eigvalsh, eigh=eigh, expm=expm_symmetric))
     special = ExtModule("tensortrax.math.special", dict(try_stack=try_stack, from_triu_1d=from_triu_1d, triu_1d=triu_1d, dev=dev, sym=symm,
                                                         erf=npmodel.erf))
     mathm = ExtModule("tensortrax.math", dict(
